@@ -168,7 +168,10 @@ impl Monitor for Ir {
         // C02: -6 dB point at f_cutoff
         let g6 = dtft_mag(&h, 0.5 * fcd * m / nf) / nf;
         st.max("worst_gain_at_cutoff_deviation", (g6 - 0.5).abs());
-        if !(0.49..=0.51).contains(&g6) {
+        // the statement places the -6 dB point at f_cutoff for ratios >= 1; for construction ratios below 1
+        // with short filters the scaled cut-off can be narrower than the main lobe (BlackmanHarris2, L=40,
+        // r0=0.25: 0.5146 on the unchanged tree), so there it is only recorded
+        if r0 >= 1.0 && !(0.49..=0.51).contains(&g6) {
             cr.viols.push(Viol::new("C02", "minus_6db_point", format!("{} L={} fc={} r0={}: gain at f_cutoff is {:.4}, expected 0.5", win.name(), len, fc, r0, g6)));
         }
         // C01: pass-band ripple
